@@ -12,8 +12,8 @@ def plan(tier, seed):
           H("c15::w_inf_disabled_f64", "inf_string=None => panic (should_panic)", "")]
     pr = [H("pf::p1_%s_%s_%d" % (f, m, n), "special strings accepted exactly when they match (case-insensitively); numeric input never NaN; sign of inf", "arbitrary bytes len<=%d" % n)
           for f in ("f32", "f64") for m in ("partial", "complete")]
-    groups = [KGroup("D", wr, timeout=900, jobs=6, mem_gb=8, label="write side"),
-              KGroup("D", pr, timeout=900 if tier == "quick" else 7200, jobs=6, mem_gb=10, stubbing=True, label="parse side")]
+    groups = [KGroup("D", wr, timeout=900, jobs=6, mem_gb=14, label="write side"),
+              KGroup("D", pr, timeout=900 if tier == "quick" else 7200, jobs=6, mem_gb=14, stubbing=True, label="parse side")]
     return {
         "kani": groups,
         "functions_encoded": ["lexical_write_float::write::{write_float,write_nan,write_inf}", "lexical_parse_float::parse::{parse_special,parse_partial_special,is_special_eq}", "lexical_parse_float::shared::starts_with_uncased"],
